@@ -25,12 +25,15 @@ Definition d_elref (em : emap FN) (v : string) : res f32 :=
       | None => Err EReference end
   | _ => Err EParse
   end.
+(* an operation outside the bit-exact instance (libm, the sign of a NaN in min / max) answers Err EOther in Model/Funcs.v; it is
+   turned into the one outcome the pipeline never retries, so that the whole run answers "unmodelled" instead of a wrong document *)
+Definition unmodelled {A} (r : res A) : res A := match r with Err EOther => Panic "unmodelled" | _ => r end.
 Definition d_eva (gv : string -> option string) (em : emap FN) (v : string) (es : dES) : res (string * dES) :=
-  eval_attr F32X gv (d_elref em) d_vbound v es.
+  unmodelled (eval_attr F32X gv (d_elref em) d_vbound v es).
 Definition d_evc (gv : string -> option string) (em : emap FN) (v : string) (es : dES) : res (bool * dES) :=
-  eval_condition F32X gv (d_elref em) d_vbound v es.
+  unmodelled (eval_condition F32X gv (d_elref em) d_vbound v es).
 Definition d_evl (gv : string -> option string) (em : emap FN) (v : string) (es : dES) : res (list string * dES) :=
-  eval_list F32X gv (d_elref em) d_vbound v es.
+  unmodelled (eval_list F32X gv (d_elref em) d_vbound v es).
 Definition d_bearing (d : string) : res string := Err EOther.
 Definition d_connector (em : emap FN) (e : el FN) : res (el FN) := transmute_conn FN strp fstr f32_max em e.
 Definition d_unescape (s : string) : string := match unesc s with Some t => t | None => s end.
@@ -97,6 +100,7 @@ Definition transform_doc (cfg : pcfg) (seed border : Z) (scale : f32) (input : s
                   Ok (write_to pre ++ write_to [OStart "svg" a []] ++ write_to rest)
               | (pre, None, _) => Ok (write_to pre)
               end
+          | (Err EInternalLogic, _) => Err EOther     (* a panic site inside a pass: here only "unmodelled" *)
           | (Err k, _) => Err k | (Panic s, _) => Panic s | (OutOfFuel, _) => OutOfFuel
           end
       end
